@@ -52,7 +52,7 @@ pub struct Group {
 pub struct Receiver {
     pub p: RecvParams,
     pub mode: String,
-    pub group: Option<Group>,
+    pub groups: Vec<Group>,
     pub id_counter: u64,
     pub seed: u64,
     /// Sequence numbers that reached the SRT receiver (for ledgers / liveness).
@@ -103,7 +103,7 @@ impl Env {
             recv: Receiver {
                 p: plan.recv.clone(),
                 mode: plan.recv.mode.clone(),
-                group: None,
+                groups: Vec::new(),
                 id_counter: 0,
                 seed: plan.seed,
                 delivered_data: 0,
@@ -215,7 +215,7 @@ impl Env {
     // ------------------------------------------------------------------ receiver
 
     pub fn receiver_restart(&mut self) {
-        self.recv.group = None;
+        self.recv.groups.clear();
         self.recv.restarts += 1;
     }
 
@@ -226,13 +226,18 @@ impl Env {
     /// Does the receiver currently hold a registration for this address?
     pub fn receiver_knows(&self, addr: Addr) -> bool {
         self.recv
-            .group
-            .as_ref()
-            .is_some_and(|g| g.conns.iter().any(|c| c.addr == addr))
+            .groups
+            .iter()
+            .any(|g| g.conns.iter().any(|c| c.addr == addr))
     }
 
     pub fn receiver_has_group(&self) -> bool {
-        self.recv.group.is_some()
+        !self.recv.groups.is_empty()
+    }
+
+    /// Would the receiver answer a REG2 carrying `id` with REG3?
+    pub fn receiver_has_group_id(&self, id: &[u8]) -> bool {
+        self.recv.groups.iter().any(|g| g.id[..] == *id)
     }
 
     pub fn receiver_rx(&mut self, now: u64, path: usize, sgen: u64, b: &[u8]) -> Vec<(usize, u64, Vec<u8>)> {
@@ -245,13 +250,15 @@ impl Env {
         let rx = &mut self.recv;
         match ty {
             0x9200 => {
-                // REG1: create the group, answer REG2 with the completed id.
+                // REG1: create a group, answer REG2 with the completed id. An
+                // address that already belongs to a group, or a full table, gets REG_ERR.
                 if b.len() != 258 {
                     return out;
                 }
-                if let Some(g) = &rx.group {
-                    // One group only (srtla_rec: address already in a group, or table full).
-                    let _ = g;
+                let addr_known = rx.groups.iter().any(|g| {
+                    g.last_addr == Some(addr) && g.conns.is_empty() || g.conns.iter().any(|c| c.addr == addr)
+                });
+                if addr_known || rx.groups.len() >= 8 {
                     out.push((path, sgen, vec![0x92, 0x10]));
                     self.stats.inc("recv.reg_err_sent");
                     return out;
@@ -262,7 +269,7 @@ impl Env {
                 for (i, v) in id[128..].iter_mut().enumerate() {
                     *v = (hash3(rx.seed, 0x1D00 + rx.id_counter, i as u64) & 0xFF) as u8;
                 }
-                rx.group = Some(Group {
+                rx.groups.push(Group {
                     id,
                     conns: Vec::new(),
                     last_addr: Some(addr),
@@ -278,15 +285,21 @@ impl Env {
                 if b.len() != 258 {
                     return out;
                 }
-                let known = rx.group.as_ref().is_some_and(|g| g.id[..] == b[2..258]);
-                if !known {
+                let Some(gi) = rx.groups.iter().position(|g| g.id[..] == b[2..258]) else {
                     out.push((path, sgen, vec![0x92, 0x11]));
                     self.stats.inc("recv.reg_ngp_sent");
                     return out;
+                };
+                // an address registered in another group is rejected
+                if rx.groups.iter().enumerate().any(|(k, g)| k != gi && g.conns.iter().any(|c| c.addr == addr)) {
+                    out.push((path, sgen, vec![0x92, 0x10]));
+                    self.stats.inc("recv.reg_err_sent");
+                    return out;
                 }
-                let g = rx.group.as_mut().unwrap();
+                let max_links = rx.p.max_links;
+                let g = &mut rx.groups[gi];
                 if !g.conns.iter().any(|c| c.addr == addr) {
-                    if g.conns.len() >= rx.p.max_links {
+                    if g.conns.len() >= max_links {
                         out.push((path, sgen, vec![0x92, 0x10]));
                         self.stats.inc("recv.reg_err_sent");
                         return out;
@@ -304,12 +317,14 @@ impl Env {
                 self.stats.inc("recv.reg3_sent");
             }
             _ => {
-                let Some(g) = rx.group.as_mut() else {
+                let Some(g) = rx
+                    .groups
+                    .iter_mut()
+                    .find(|g| g.conns.iter().any(|c| c.addr == addr))
+                else {
                     return out;
                 };
-                let Some(ci) = g.conns.iter().position(|c| c.addr == addr) else {
-                    return out;
-                };
+                let ci = g.conns.iter().position(|c| c.addr == addr).unwrap();
                 g.conns[ci].last_rcvd = now;
                 if ty == 0x9000 {
                     // Keepalive: verbatim echo.
@@ -369,64 +384,66 @@ impl Env {
         if rx.mode != "coop" {
             return out;
         }
-        let Some(g) = rx.group.as_mut() else {
-            return out;
-        };
-        // Link expiry; an empty group is dropped after the same timeout.
         let expiry = rx.p.link_expiry_ms;
-        let before = g.conns.len();
-        g.conns.retain(|c| now.saturating_sub(c.last_rcvd) < expiry);
-        if g.conns.len() != before {
-            self.stats.add("recv.link_expired", (before - g.conns.len()) as u64);
-        }
-        if g.conns.is_empty() {
-            if now.saturating_sub(g.created) >= expiry {
-                rx.group = None;
-                self.stats.inc("recv.group_expired");
-            }
-            return out;
-        }
-        g.created = now;
-        g.srt.ticks += 1;
-        // Drop losses we have given up on.
-        let drop_after = rx.p.drop_after_ms;
-        let given_up: Vec<u32> = g
-            .srt
-            .losses
-            .iter()
-            .filter(|(_, t)| now.saturating_sub(**t) >= drop_after)
-            .map(|(s, _)| *s)
-            .collect();
-        for s in given_up {
-            g.srt.losses.remove(&s);
-        }
-        g.srt.advance();
-        // Cumulative ACK when it moved.
-        if let Some(next) = g.srt.next
-            && g.srt.last_ack_sent != Some(next)
-        {
-            g.srt.last_ack_sent = Some(next);
-            let pkt = build_srt_ack(next, g.srt.ticks);
-            if rx.p.fanout_all {
-                for c in &g.conns {
-                    out.push((c.addr.0, c.addr.1, pkt.clone()));
+        let mut stats_exp = 0u64;
+        let mut groups_exp = 0u64;
+        rx.groups.retain_mut(|g| {
+            let before = g.conns.len();
+            g.conns.retain(|c| now.saturating_sub(c.last_rcvd) < expiry);
+            stats_exp += (before - g.conns.len()) as u64;
+            if g.conns.is_empty() {
+                if now.saturating_sub(g.created) >= expiry {
+                    groups_exp += 1;
+                    return false;
                 }
-            } else if let Some(a) = g.last_addr {
-                out.push((a.0, a.1, pkt));
+            } else {
+                g.created = now;
             }
-            self.stats.inc("recv.srt_ack_sent");
-        }
-        // Periodic NAK re-report.
-        if rx.p.naks
-            && rx.p.renak_ticks > 0
-            && g.srt.ticks % rx.p.renak_ticks == 0
-            && !g.srt.losses.is_empty()
-        {
-            let list: Vec<u32> = g.srt.losses.keys().copied().take(200).collect();
-            let pkt = build_nak(&list);
-            if let Some(a) = g.last_addr {
-                out.push((a.0, a.1, pkt));
-                self.stats.inc("recv.nak_resent");
+            true
+        });
+        self.stats.add("recv.link_expired", stats_exp);
+        self.stats.add("recv.group_expired", groups_exp);
+        let p = rx.p.clone();
+        for g in rx.groups.iter_mut() {
+            if g.conns.is_empty() {
+                continue;
+            }
+            g.srt.ticks += 1;
+            // Drop losses we have given up on.
+            let given_up: Vec<u32> = g
+                .srt
+                .losses
+                .iter()
+                .filter(|(_, t)| now.saturating_sub(**t) >= p.drop_after_ms)
+                .map(|(s, _)| *s)
+                .collect();
+            for s in given_up {
+                g.srt.losses.remove(&s);
+            }
+            g.srt.advance();
+            // Cumulative ACK when it moved.
+            if let Some(next) = g.srt.next
+                && g.srt.last_ack_sent != Some(next)
+            {
+                g.srt.last_ack_sent = Some(next);
+                let pkt = build_srt_ack(next, g.srt.ticks);
+                if p.fanout_all {
+                    for c in &g.conns {
+                        out.push((c.addr.0, c.addr.1, pkt.clone()));
+                    }
+                } else if let Some(a) = g.last_addr {
+                    out.push((a.0, a.1, pkt));
+                }
+                self.stats.inc("recv.srt_ack_sent");
+            }
+            // Periodic NAK re-report.
+            if p.naks && p.renak_ticks > 0 && g.srt.ticks % p.renak_ticks == 0 && !g.srt.losses.is_empty() {
+                let list: Vec<u32> = g.srt.losses.keys().copied().take(200).collect();
+                let pkt = build_nak(&list);
+                if let Some(a) = g.last_addr {
+                    out.push((a.0, a.1, pkt));
+                    self.stats.inc("recv.nak_resent");
+                }
             }
         }
         out
